@@ -16,6 +16,9 @@ OBLIGATIONS = [
     (P + "dispatch_eq_spec", "for all trees/paths/methods: url_dispatcher::dispatch model = Spec.route (find?-based, whole-string) — nested applications to any depth"),
     (P + "mount_then_dispatch", "a handler runs iff there is a chain of first-taking mounts from the root whose selected groups lead to a first-taking handler (induction on the tree)"),
     (P + "args_infix_of_request", "under RxSound: every argument any handler at any depth receives is a contiguous substring of the request path"),
+    (P + "typed_integer_is_numeral", "istream>> + eof test on int/unsigned/long long/unsigned long long accepts exactly the decimal numerals in range (optional leading white space, one sign) and yields their value, for every byte string"),
+    (P + "typed_param_eq_spec", "one typed parameter converts iff it is valid text (external) and, for integers, a numeral in range"),
+    (P + "typed_handler_applies_iff", "a map() handler takes the request iff pattern matches whole URL, method filter holds and every selected group converts; otherwise nothing is called and the scan continues"),
     (P + "mpMatch_eq_spec", "mount_point::match (both overloads) = Spec.mpMatch: all configured patterns match their whole strings; result = selected string or its group"),
     (P + "pool_is_first_match", "applications_pool scan = first mount point in mount order that matches; none => 404"),
     (P + "poolRoute_eq_spec", "pool + application::main = Spec.poolRoute"),
